@@ -1,3 +1,4 @@
+\* quick: incoming calls, ReceiveCall, inbox overflow (Cap = 1), SendReplyCall
 SPECIFICATION Spec
 CONSTANTS
   Callers = {P1, P2}
